@@ -92,6 +92,26 @@ def check_concrete(aut, z, objective, mem, mem_init, only=None):
     P = [dict(x, **y, **m) for x in X for y in Y for m in M]
     inrange = lambda p: all(rng[n][0] <= p[n] <= rng[n][1] for n in mem)
     inv = [p for p in P if truth(z, p) and inrange(p)]
+    if objective == 'rabin':
+        # For Rabin(1) `Win /\ memory in range` is not an invariant that every conjunct of the property holds on:
+        # a winning state paired with a persistence index it is never given (with two or more persistence
+        # predicates) is no reachable product state. The obligations are therefore evaluated on the product
+        # states reachable from the admitted initial states (exactly the behaviours the property speaks of).
+        key = lambda p: tuple(sorted(p.items()))
+        seen = {}
+        todo = [p for p in P if truth(init_impl, p) and truth(env_i, p)]
+        for p in todo:
+            seen[key(p)] = p
+        while todo:
+            p = todo.pop()
+            for x in X:
+                for y in Y:
+                    for m in M:
+                        q = dict(x, **y, **m)
+                        if key(q) not in seen and truth(impl, p, q) and truth(env_a, p, q):
+                            seen[key(q)] = q
+                            todo.append(q)
+        inv = list(seen.values())
     found = []
 
     def want(name):
@@ -275,6 +295,11 @@ def family_obligations(shape, moore, plus_one, objective, which=None, state_idx=
     def primed(e):
         return z3.substitute(e, *[(bits(b), bits(b + "'")) for b in sbits + mbits])
     inv = z3.And(eZ, inrange(False))
+    if objective == 'rabin' and (which is None or any(w in ('safety', 'closure', 'nonblock', 'moore-indep', 'range') for w in which)):
+        # Win /\ ranges is not inductive enough for Rabin(1) with several persistence predicates (a winning state
+        # paired with a persistence index it is never given): use the exact set of reachable product states
+        cur_, nodes_, T_, R_, inst_ = _product(exp, eA, eE, eI, eEI, sbits, mbits)
+        inv = z3.Or([z3.And([bits(b) == z3.BoolVal(v) for b, v in zip(cur_, p)] + [R_[p]]) for p in nodes_])
     mem0 = z3.And([link.int_of(n, aut.vars[n], bits) == mem_init[n] for n in mem])
     name0 = f'{objective}-impl {shape} moore={moore} plus_one={plus_one}'
     sample = dict(shape=shape, objective=objective, moore=moore, plus_one=plus_one,
@@ -286,6 +311,8 @@ def family_obligations(shape, moore, plus_one, objective, which=None, state_idx=
     hyp = [inv, eA] if plus_one else [inv, eA, eE]
     obligations.append(('safety', hyp + [z3.Not(eS)]))
     obligations.append(('closure', [inv, eA, eE, z3.Not(z3.And(primed(eZ), inrange(True)))]))
+    if objective == 'rabin':
+        obligations.append(('range', [inv, z3.Not(z3.And(eZ, inrange(False)))]))
     # finite expansion of the quantifiers over the next-state bits (quantifier-free query)
     def expand(bvars):
         return [list(zip(bvars, [z3.BoolVal(v) for v in vs]))
@@ -323,6 +350,33 @@ def family_obligations(shape, moore, plus_one, objective, which=None, state_idx=
     if which is None or 'pointwise' in which:
         out.extend(_pointwise(aut, params, shape, moore, plus_one, objective, name0))
     return out
+
+
+def _product(exp, eA, eE, eI, eEI, sbits, mbits):
+    """Explicit product states (state x memory) with edges / initial set / reachability symbolic in the constants."""
+    import z3
+    bits = exp.bits
+    cur = sbits + mbits
+    nodes = list(itertools.product([False, True], repeat=len(cur)))
+    eT = z3.And(eA, eE)
+    eInit = z3.And(eI, eEI)
+
+    def inst(e, p, q=None):
+        sub = [(bits(b), z3.BoolVal(v)) for b, v in zip(cur, p)]
+        if q is not None:
+            sub += [(bits(b + "'"), z3.BoolVal(v)) for b, v in zip(cur, q)]
+        return z3.simplify(z3.substitute(e, *sub))
+    Tp = {p: inst(eT, p) for p in nodes}
+    T = {}
+    for p in nodes:
+        for q in nodes:
+            T[p, q] = z3.simplify(z3.substitute(Tp[p], *[(bits(b + "'"), z3.BoolVal(v)) for b, v in zip(cur, q)]))
+    init = {p: inst(eInit, p) for p in nodes}
+    N = len(nodes)
+    R = dict(init)
+    for _ in range(N):
+        R = {q: z3.Or([R[q]] + [z3.And(R[p], T[p, q]) for p in nodes]) for q in nodes}
+    return cur, nodes, T, R, inst
 
 
 def _decide(name0, name, fs, shape, moore, plus_one, objective, params, bits, sample, nontrivial, table=None):
@@ -508,3 +562,34 @@ FUNCS = {
               'symbolic._assert_support_moore', 'gr1.solve_rabin_game', 'gr1._cycle_inside',
               'gr1._attractor_inside', 'fixpoint.step'],
 }
+
+
+def member_instances(shape, moore, plus_one, objective, seeds):
+    """Per-member construction by the real code, all obligations by enumeration (no family, no z3): covers what a
+    family run cannot show (loop termination of the solver whose iterates feed the constructor) and shapes with
+    more goals than the family tier affords."""
+    import random
+    from vlib import family
+    from vlib.props.c01 import _describe
+    out = []
+    for seed in seeds:
+        rnd = random.Random(seed)
+        aut, params = family.build(shape, moore, plus_one)
+        vals = family.random_member(aut, params, rnd)
+        name = f'{objective}-impl member {shape}#{seed} moore={moore} plus_one={plus_one}'
+        sample = dict(shape=shape, member=_describe(vals, params), moore=moore, plus_one=plus_one, objective=objective)
+        try:
+            found = replay_member(shape, moore, plus_one, objective, vals)
+        except Exception as e:  # noqa
+            import traceback
+            where = traceback.extract_tb(e.__traceback__)[-1]
+            found = [('construct', f'raised {type(e).__name__} at {where.name}:{where.lineno}: {str(e)[:80]}')]
+        if found:
+            ob, why = found[0]
+            mode = f'{"moore" if moore else "mealy"}:{"plus_one" if plus_one else "stepwise"}'
+            out.append(core.res(name, 'violation', sample=sample, nontrivial=True, functions=FUNCS[objective],
+                                signature=f'{objective}-impl:{ob}:{mode}', detail=f'member {_describe(vals, params)} of {shape} ({mode}): {why}',
+                                cex=dict(shape=shape, moore=moore, plus_one=plus_one, objective=objective, values=vals, obligation=ob)))
+        else:
+            out.append(core.res(name, 'holds', sample=sample, nontrivial=True, functions=FUNCS[objective]))
+    return out
